@@ -211,22 +211,24 @@ for _i in range(1, 21):
 # equality for every input at once, not only on the sampled ones.
 GEN = {
     "GenC16": ["Gen_Rel_Invert_eq", "Gen_Rel_Normalize_eq", "Gen_Rel_String_eq", "Gen_relLess_eq"],
-    "GenC10": ["Gen_checkStr_eq", "Gen_checkInt_eq", "Gen_checkUint_eq", "Gen_checkBool_eq", "Gen_checkTime_eq"],
+    "GenC10": ["Gen_checkStr_eq", "Gen_checkInt_eq", "Gen_checkUint_eq", "Gen_checkBool_eq", "Gen_checkTime_eq", "Gen_checkIn_eq"],
     "GenC14": ["Gen_GetAttrType_eq", "Gen_GetAttrType_names", "Gen_GetAttrTypeString_kind", "Gen_GetAttrTypeString_nonEmpty",
                "Gen_GetAttrType_String"],
     "GenC03": ["Gen_buildSelfLink_eq", "Gen_buildRelationshipLinks_eq"],
+    "GenC08": ["Gen_parseCommaList_eq", "Gen_parseFragments_eq"],
     "GenC07": ["Gen_deduceRoute_nil", "Gen_deduceRoute_take5", "Gen_deduceRoute_col", "Gen_deduceRoute_res",
                "Gen_deduceRoute_related", "Gen_deduceRoute_self"],
 }
 GEN_WHAT = {
     "GenC16": "Rel.Invert, Rel.Normalize, Rel.String and relLess",
-    "GenC10": "checkStr, checkInt, checkUint, checkBool and checkTime",
+    "GenC10": "checkStr, checkInt, checkUint, checkBool, checkTime and checkIn",
+    "GenC08": "parseCommaList and parseFragments",
     "GenC14": "GetAttrType and GetAttrTypeString",
     "GenC03": "buildSelfLink and buildRelationshipLinks",
     "GenC07": "deduceRoute",
 }
 GEN_USERS = {"C16": ["GenC16"], "C10": ["GenC10"], "C09": ["GenC10"], "C14": ["GenC14"], "C17": ["GenC14"], "C19": ["GenC14"],
-             "C03": ["GenC03"], "C04": ["GenC03"], "C07": ["GenC07"]}
+             "C03": ["GenC03"], "C04": ["GenC03"], "C07": ["GenC07", "GenC08"], "C08": ["GenC08"]}
 for _pid, _mods in GEN_USERS.items():
     _c = PROPS[_pid]
     _c["modules"] = list(_c.get("modules", [_pid])) + _mods
